@@ -865,27 +865,18 @@ class _TRSTractList:
             return self._group(
                 self, first_attribute, into, sort_key, sort_reverse)
 
-        def get_keybase(key_):
-            """
-            Convert tuple to list and put any other object type in a
-            list.  (i.e. make mutable to add an element to the list,
-            which we'll then convert back to a tuple to serve as a dict
-            key.)
-            """
-            if isinstance(key_, tuple):
-                return list(key_)
-            else:
-                return [key_]
-
-        dct = self._group(self, first_attribute)
+        # Key each group by a tuple of its attribute values, one per
+        # attribute. (A value that is itself a tuple stays one value.)
+        dct = {
+            (k,): v for k, v in self._group(self, first_attribute).items()
+        }
         while attribute:
             dct_new = {}
             grp_att = attribute.pop(0)
             for k1, v1 in dct.items():
-                k1_base = get_keybase(k1)
                 dct_2 = self._group(v1, grp_att)
                 for k2, v2 in dct_2.items():
-                    dct_new[tuple(k1_base + [k2])] = v2
+                    dct_new[k1 + (k2,)] = v2
             dct = dct_new
 
         # Unpack `dct` into the existing dict (`into`), if applicable.
